@@ -466,6 +466,10 @@ ob(name='scenario.movable_mock_moved', kind='FC+', props=['C14', 'C03', 'C15'], 
    bound='none for the argument value; the scenario (movable mock with one active and one saturated expectation, moved, called, over-called) is fixed by the driver function')
 ob(name='scenario.parameter_mismatch_report', kind='BL', props=['C01', 'C15', 'C10'], unit='c09', harness='h_c09.c', entry='c_param_mismatch', unwind=26, timeout=1200, object_bits=12, defines={'VP_TOK_CAP': 24}, variants=[('fits', {'W_X': 5}), ('rejected', {'W_X': 7})], min_reach=0,
    bound='first argument 5 (fits) or 7 (rejected), second argument free; one expectation p(5, _) on a mock function of arity 2')
+UNITS['c13s'] = {'opaque': [' get_lock$'], 'dyn_types': [r'^sequence_handler<[01]>$', r'^lifetime_monitor$', r'^deathwatched<vp_vp_D>$'],
+                 'roots': {'C13_MACROS': '^_ZN14vp_trompeloeil13vp_c13_macrosE', 'OBS': 'rec:^vp_vp_obs$'}}
+ob(name='scenario.require_destruction_macros', kind='FC+', props=['C13', 'C15', 'C14'], unit='c13s', harness='h_c13s.c', entry='c_destruction', unwind=6, timeout=900, object_bits=12,
+   bound='none: both cases (a requirement is alive / none is); one deathwatched object')
 for e in ('c_alias', 'c_lr', 'c_positions', 'c_arity15'):
     ob(name='c09.%s' % e[2:], kind='FC+', props=['C09'], unit='c09', harness='h_c09.c', entry=e, unwind=17 if e == 'c_arity15' else 6, timeout=900, object_bits=12,
        bound='none for the values (symbolic ints); the scenario (one mock function of arity 3 / 1 / 0, the clauses listed in the harness) is fixed by the driver function')
